@@ -40,6 +40,9 @@ class Cull:
         self.alias = {}          # local name -> attribute name
         self.ints = set()
         self.consts = module_consts
+        self.none_params = set() # optional parameters known to be None at entry (the callers never pass them)
+        self.pairs = set()       # locals bound to a two-element list literal [a, b]  (an interval)
+        self.elems = {}          # local name -> (attribute name, index text): an alias of one element of a list
 
     # ---------------------------------------------------------------- expressions
     def attr_of(self, e):
@@ -55,7 +58,7 @@ class Cull:
     def int(self, e):
         if isinstance(e, ast.Constant) and type(e.value) is int:
             return "(%d)%%Z" % e.value
-        if isinstance(e, ast.Name) and e.id in self.ints:
+        if isinstance(e, ast.Name) and e.id in self.ints and e.id not in self.none_params:
             return e.id
         if isinstance(e, ast.Attribute) and isinstance(e.value, ast.Name) and e.value.id == "self" \
                 and e.attr == "_dead_index_count":
@@ -84,6 +87,13 @@ class Cull:
             return "(negb %s)" % self.cond(e.operand)
         if self.attr_of(e):
             return "(is_nonempty %s)" % self.read(self.attr_of(e))
+        if isinstance(e, ast.Compare) and len(e.ops) > 1:
+            # a OP b OP c  ==  (a OP b) and (b OP c); the operands are side-effect free ints
+            parts, left = [], e.left
+            for op, right in zip(e.ops, e.comparators):
+                parts.append(self.cond(ast.Compare(left=left, ops=[op], comparators=[right])))
+                left = right
+            return "(" + " && ".join(parts) + ")"
         if isinstance(e, ast.Compare) and len(e.ops) == 1:
             op, l, r = e.ops[0], e.left, e.comparators[0]
             if isinstance(op, ast.Is):
@@ -135,11 +145,12 @@ class Cull:
                 for x, y in zip(t.elts, v.elts):
                     self.alias[x.id] = y.attr
                 return ""
-            if isinstance(t, ast.Name) and t.id not in self.alias:
+            if isinstance(t, ast.Name) and t.id not in self.alias and not isinstance(v, ast.List) \
+                    and not (isinstance(v, ast.Call) and isinstance(v.func, ast.Name) and v.func.id == "bisect_left") \
+                    and not (isinstance(v, ast.Subscript) and self.attr_of(v.value)):
                 text = sp + "let %s := %s in\n" % (t.id, self.int(v))
                 self.ints.add(t.id)
                 return text
-            _fail(s, "assignment")
         if isinstance(s, ast.AugAssign) and isinstance(s.target, ast.Name) and s.target.id in self.ints \
                 and isinstance(s.op, (ast.Add, ast.Sub)):
             op = "+" if isinstance(s.op, ast.Add) else "-"
@@ -166,6 +177,53 @@ class Cull:
             return sp + "let self := m_compact self in\n"
         if isinstance(s, ast.Expr) and isinstance(s.value, ast.Constant) and isinstance(s.value.value, str):
             return ""
+        # x = [a, b]   (an interval)
+        if isinstance(s, ast.Assign) and len(s.targets) == 1 and isinstance(s.targets[0], ast.Name) \
+                and isinstance(s.value, ast.List) and len(s.value.elts) == 2:
+            n = s.targets[0].id
+            text = sp + "let %s := (%s, %s) in\n" % (n, self.int(s.value.elts[0]), self.int(s.value.elts[1]))
+            self.pairs.add(n)
+            return text
+        # alias.append(pair) / alias.insert(i, pair)
+        if isinstance(s, ast.Expr) and isinstance(s.value, ast.Call) and isinstance(s.value.func, ast.Attribute) \
+                and self.attr_of(s.value.func.value) == "dead_indices" and not s.value.keywords:
+            c = s.value
+            if c.func.attr == "append" and len(c.args) == 1 and isinstance(c.args[0], ast.Name) and c.args[0].id in self.pairs:
+                return sp + "let self := set_dead self (py_append_iv (dead self) %s) in\n" % c.args[0].id
+            if c.func.attr == "insert" and len(c.args) == 2 and isinstance(c.args[1], ast.Name) and c.args[1].id in self.pairs:
+                return sp + "let self := set_dead self (py_insert_iv (dead self) %s %s) in\n" % (self.int(c.args[0]), c.args[1].id)
+            _fail(s, "method call on the interval list")
+        # n = bisect_left(alias, pair)
+        if isinstance(s, ast.Assign) and len(s.targets) == 1 and isinstance(s.targets[0], ast.Name) \
+                and isinstance(s.value, ast.Call) and isinstance(s.value.func, ast.Name) and s.value.func.id == "bisect_left" \
+                and len(s.value.args) == 2 and not s.value.keywords and self.attr_of(s.value.args[0]) == "dead_indices" \
+                and isinstance(s.value.args[1], ast.Name) and s.value.args[1].id in self.pairs:
+            n = s.targets[0].id
+            self.ints.add(n)
+            return sp + "let %s := py_bisect_left (dead self) %s in\n" % (n, s.value.args[1].id)
+        # x = alias[e]   (x aliases one interval of the list)
+        if isinstance(s, ast.Assign) and len(s.targets) == 1 and isinstance(s.targets[0], ast.Name) \
+                and isinstance(s.value, ast.Subscript) and self.attr_of(s.value.value) == "dead_indices":
+            n = s.targets[0].id
+            idx = "_idx_" + n
+            self.elems[n] = ("dead_indices", idx)
+            return sp + "let %s := %s in\n" % (idx, self.int(s.value.slice))
+        # a, b = x   (x an interval alias)
+        if isinstance(s, ast.Assign) and len(s.targets) == 1 and isinstance(s.targets[0], ast.Tuple) \
+                and len(s.targets[0].elts) == 2 and all(isinstance(x, ast.Name) for x in s.targets[0].elts) \
+                and isinstance(s.value, ast.Name) and s.value.id in self.elems:
+            a, b = [x.id for x in s.targets[0].elts]
+            idx = self.elems[s.value.id][1]
+            self.ints.update([a, b])
+            return sp + "let %s := py_iv_start (dead self) %s in\n" % (a, idx) + \
+                sp + "let %s := py_iv_stop (dead self) %s in\n" % (b, idx)
+        # x[0] = e / x[1] = e   (x an interval alias: updates the list in place)
+        if isinstance(s, ast.Assign) and len(s.targets) == 1 and isinstance(s.targets[0], ast.Subscript) \
+                and isinstance(s.targets[0].value, ast.Name) and s.targets[0].value.id in self.elems \
+                and isinstance(s.targets[0].slice, ast.Constant) and s.targets[0].slice.value in (0, 1):
+            idx = self.elems[s.targets[0].value.id][1]
+            fn = "py_set_iv_start" if s.targets[0].slice.value == 0 else "py_set_iv_stop"
+            return sp + "let self := set_dead self (%s (dead self) %s %s) in\n" % (fn, idx, self.int(s.value))
         _fail(s, "statement")
 
     def block(self, stmts, ind):
@@ -173,11 +231,25 @@ class Cull:
         if not stmts:
             return ind + "self\n"
         s, rest = stmts[0], stmts[1:]
+        if isinstance(s, ast.If) and isinstance(s.test, ast.Compare) and len(s.test.ops) == 1 \
+                and isinstance(s.test.ops[0], ast.Is) and isinstance(s.test.left, ast.Name) \
+                and s.test.left.id in self.none_params and isinstance(s.test.comparators[0], ast.Constant) \
+                and s.test.comparators[0].value is None and not s.orelse:
+            # the parameter is None at entry: the body runs; it must give the parameter its value
+            name = s.test.left.id
+            self.none_params.discard(name)
+            if not (len(s.body) == 1 and isinstance(s.body[0], ast.Assign) and len(s.body[0].targets) == 1
+                    and isinstance(s.body[0].targets[0], ast.Name) and s.body[0].targets[0].id == name):
+                _fail(s, "default-filling statement")
+            return self.simple(s.body[0], ind) + self.block(rest, ind)
         if isinstance(s, ast.If):
             c = self.cond(s.test)
-            if len(s.body) == 1 and isinstance(s.body[0], ast.Return) and s.body[0].value is None and not s.orelse:
-                return ind + "if %s then self else (\n%s%s)\n" % (c, self.block(rest, ind + "  "), ind)
-            if rest:
+            if s.body and isinstance(s.body[-1], ast.Return) and s.body[-1].value is None and not s.orelse:
+                saved = (dict(self.alias), set(self.ints), set(self.pairs), dict(self.elems))
+                a = self.block(s.body[:-1], ind + "  ")
+                self.alias, self.ints, self.pairs, self.elems = saved
+                return ind + "if %s then (\n%s%s) else (\n%s%s)\n" % (c, a, ind, self.block(rest, ind + "  "), ind)
+            if rest and not (len(rest) == 1 and isinstance(rest[0], ast.Return) and rest[0].value is None):
                 _fail(s, "if-statement that is not the last statement of its block")
             saved = (dict(self.alias), set(self.ints))
             a = self.block(s.body, ind + "  ")
@@ -214,6 +286,30 @@ def module_int_consts(tree):
     return out
 
 
+def translate_add_dead(path):
+    tree = ast.parse(open(path).read())
+    cls = [n for n in tree.body if isinstance(n, ast.ClassDef) and n.name == "IndexedSet"]
+    if len(cls) != 1:
+        raise Unsupported("class IndexedSet not found")
+    fn = [n for n in cls[0].body if isinstance(n, ast.FunctionDef) and n.name == "_add_dead"]
+    if len(fn) != 1:
+        raise Unsupported("IndexedSet._add_dead not found")
+    fn = fn[0]
+    a = fn.args
+    if [x.arg for x in a.args] != ["self", "start", "stop"] or a.vararg or a.kwarg or a.kwonlyargs or fn.decorator_list \
+            or len(a.defaults) != 1 or not (isinstance(a.defaults[0], ast.Constant) and a.defaults[0].value is None):
+        raise Unsupported("unexpected signature of _add_dead")
+    # every call site passes `start` only
+    calls = [n for n in ast.walk(cls[0]) if isinstance(n, ast.Call) and isinstance(n.func, ast.Attribute)
+             and n.func.attr == "_add_dead"]
+    if not calls or any(len(c.args) != 1 or c.keywords for c in calls):
+        raise Unsupported("_add_dead is called with a stop argument somewhere")
+    tr = Cull(module_int_consts(tree))
+    tr.ints.add("start")
+    tr.none_params.add("stop")
+    return "Definition src_add_dead (self : iset) (start : Z) : iset :=\n" + tr.block(fn.body, "  ").rstrip("\n") + ".\n"
+
+
 def translate(path):
     tree = ast.parse(open(path).read())
     cls = [n for n in tree.body if isinstance(n, ast.ClassDef) and n.name == "IndexedSet"]
@@ -229,11 +325,11 @@ def translate(path):
     return "Definition src_cull (self : iset) : iset :=\n" + tr.block(fn.body, "  ").rstrip("\n") + ".\n"
 
 
-HEADER = """(* GENERATED on every run by harness/translators/c11_cull.py from %s (IndexedSet._cull); do not edit. *)
+HEADER = """(* GENERATED on every run by harness/translators/c11_cull.py from %s (IndexedSet._cull, IndexedSet._add_dead); do not edit. *)
 From Boltons Require Import Lib.Prelude Lib.PySrc Lib.C11_Iface Model.C11_Model Lib.C11_PyImp.
 """
 
 
 def generate(repo):
     path = os.path.join(repo, "boltons", "setutils.py")
-    return {"C11_Cull": HEADER % "boltons/setutils.py" + translate(path)}
+    return {"C11_Cull": HEADER % "boltons/setutils.py" + translate(path) + "\n" + translate_add_dead(path)}
